@@ -68,6 +68,16 @@ Theorem C12_naming_deterministic_all_names_single :
     /\ forall t l, files_written t l (keys summary) k1 = files_written t l (keys summary) k2.
 Proof. exact c12_naming_all_names_single. Qed.
 
+(* ... the file stem in closed form, for EVERY run id: the run id without its spaces, "/" spelled "_of_" -- only the solution marker that
+   ends the key is dropped (set.Summary.FileNameSafeId after fix C19c-5; before, a name containing "Solution (" lost its run marker) --
+   and hence: with more than one run, two runs never share a summary file (used by C19's "a result for each run") *)
+Theorem C12_file_stem_closed_form : forall run, file_stem (as_is_id run) = replace_char "/" "_of_" (remove_char " " run).
+Proof. exact summary_stem_as_is. Qed.
+
+Theorem C12_file_stems_distinct_across_runs : forall name R r1 r2, 1 < effective_runs R ->
+  file_stem (as_is_id (run_id name R r1)) = file_stem (as_is_id (run_id name R r2)) -> r1 = r2.
+Proof. exact summary_stem_inj. Qed.
+
 (* what a line break in the name does (replayed on the real code by the correspondence cases with such names) *)
 Example C12_line_break_truncates_set_name :
   let name := String "a" (String "010" "b") in
@@ -292,6 +302,8 @@ Example C12_boundary_name_contains_1_of_1 :
   = ["Optimised"; "Optimised"; "Optimised"].
 Proof. vm_compute. reflexivity. Qed.
 
+Print Assumptions C12_file_stem_closed_form.
+Print Assumptions C12_file_stems_distinct_across_runs.
 Print Assumptions C12_naming_deterministic_multi.
 Print Assumptions C12_naming_deterministic_single.
 Print Assumptions C12_naming_deterministic_all_names_multi.
